@@ -193,3 +193,8 @@ PROPS["C10"]["rule"] += " sm: package-level SendMail and DialStartTLS + Client.S
 
 PROPS["C14"]["kinds"] = ["trip", "cli", "c11"]
 PROPS["C14"]["trusted_base"] = TRIP_TB + CLI_TB
+
+PROPS["C01"]["kinds"] = ["dr", "tls"]
+PROPS["C01"]["rule"] += " tls: DATA transactions before and after a real STARTTLS upgrade (the message read inside TLS must be the octets sent inside TLS)."
+PROPS["C01"]["trusted_base"] = PROPS["C01"]["trusted_base"] + CONV_TB + TLS_TB
+PROPS["C02"]["kinds"] = ["c02", "dr", "tls"]
